@@ -6,14 +6,16 @@ import StraxModel.Model.Lineage
   empty string is a token too.
 
     val   ::= i <int> | s ~str | t <n> val*n | l <n> val*n | d <n> (~key val)*n | S <n> ~str*n
+            | b <0/1> | n | f <neg 0/1> <int part> <k> digit*k      (float: plain decimal repr, k >= 1)
     opt   ::= ~name <track 0/1> (~parent | -) (0 | 1 val)
-    class ::= ~name ~version ~provides <n> ~dep*n <child 0/1> <n> (~base ~version)*n ~compressor <timeout> <n> opt*n
+    class ::= ~name ~version ~provides <n> ~dep*n <child 0/1> <n> (~base ~version)*n ~compressor <timeout> <n> opt*n <n> ~alsoProvides*n
     op    ::= SC <who> <n> (~key val)*n | RG <who> class | NC <who> | SF <who> <n> ~t*n <n> ~o*n
             | LN <who> ~d | ST <who> ~d | MK <who> ~d | GT <who> ~d | LS   (LS: list the directory)
 
     c02.canon val                 -> the JSON text fed to SHA-1 (now / before the set fix: c02.canon0)
     c02.run <rules> op*           -> outputs of all ops, joined by " ;; "
-    c02.match <canonMatch 0/1> lineage lineage <n> ~t*n <n> ~o*n   (lineage ::= <n> (~type ~cls ~version <n> (~key val)*n)*n)
+    c02.autover <n> (~attr ~source-digest)*n <n> (~attr ~source-digest)*n   -> same auto-inferred version?
+    c02.match <rule: vals|canon|text> lineage lineage <n> ~t*n <n> ~o*n   (lineage ::= <n> (~type ~cls ~version <n> (~key val)*n)*n)
 -/
 namespace Strax.Driver
 open Strax Strax.Lineage
@@ -44,6 +46,12 @@ def pMany (p : Toks → Option (α × Toks)) : Nat → Toks → Option (List α 
     let (as, ts) ← pMany p n ts
     pure (a :: as, ts)
 
+def pDigit : Toks → Option (Fin 10 × Toks)
+  | t :: rest => do
+    let n ← t.toNat?
+    if h : n < 10 then pure (⟨n, h⟩, rest) else none
+  | [] => none
+
 def pCounted (p : Toks → Option (α × Toks)) (ts : Toks) : Option (List α × Toks) := do
   let (n, ts) ← pNat ts
   pMany p n ts
@@ -57,6 +65,15 @@ def pVal : Nat → Toks → Option (Val × Toks)
     else if t == "t" then do let (l, ts) ← pCounted (pVal fuel) ts; pure (.seq true l, ts)
     else if t == "l" then do let (l, ts) ← pCounted (pVal fuel) ts; pure (.seq false l, ts)
     else if t == "S" then do let (l, ts) ← pCounted pStr ts; pure (.sset l, ts)
+    else if t == "b" then do let (b, ts) ← pBool ts; pure (.bool b, ts)
+    else if t == "n" then pure (.none, ts)
+    else if t == "f" then do
+      let (neg, ts) ← pBool ts
+      let (ip, ts) ← pNat ts
+      let (ds, ts) ← pCounted pDigit ts
+      match ds with
+      | d :: rest => pure (.float neg ip d rest, ts)
+      | [] => none
     else if t == "d" then do
       let (l, ts) ← pCounted (fun ts => do
         let (k, ts) ← pStr ts
@@ -98,7 +115,8 @@ def pClass (ts : Toks) : Option (PluginClass × Toks) := do
   let (compressor, ts) ← pStr ts
   let (timeout, ts) ← pInt ts
   let (opts, ts) ← pCounted pOpt ts
-  pure (⟨name, version, provides, deps, opts, child, bases, compressor, timeout⟩, ts)
+  let (also, ts) ← pCounted pStr ts
+  pure (⟨name, version, provides, deps, opts, child, bases, compressor, timeout, also⟩, ts)
 
 /-- `LS` (no context): list the shared directory; everything else is an op of one context -/
 def pOp : Toks → Option (Option Op × Toks)
@@ -146,6 +164,7 @@ def pRules (s : String) : Option Rules :=
   else if s == "old" then some Rules.old
   else if s == "mergedhash" then some Rules.mergedHash
   else if s == "pyeqmatch" then some Rules.pyEqMatch
+  else if s == "pyeqcanon" then some Rules.pyEqCanonMatch
   else none
 
 def showLineage (l : Lineage) : String := canonString (lineageCanon l)
@@ -181,12 +200,24 @@ def handleC02 : List String → Option String
     let ops ← pOps (ts.length + 1) ts
     pure (" ;; ".intercalate (runHistory rules State.init ops))
   | "c02.match" :: cm :: ts => do
-    let cm ← parseBool cm
+    let cm ← (if cm == "vals" then some MatchRule.pyEqVals else if cm == "canon" then some .pyEqCanon
+              else if cm == "text" then some .textEq else none)
     let (stored, ts) ← pLineage ts
     let (want, ts) ← pLineage ts
     let (ff, ts) ← pCounted pStr ts
     let (ffo, ts) ← pCounted pStr ts
     if ts.isEmpty then pure (if fuzzyMatches cm stored want ff ffo then "ok True" else "ok False") else none
+  | "c02.autover" :: ts => do
+    -- do two classes (attribute ↦ digest of its source) get the same auto-inferred version?
+    let pAttr := fun (ts : Toks) => do
+      let (a, ts) ← pStr ts
+      let (src, ts) ← pStr ts
+      pure ((a, src), ts)
+    let (a1, ts) ← pCounted pAttr ts
+    let (a2, ts) ← pCounted pAttr ts
+    if ts.isEmpty then
+      pure (if autoVersion (fun x => x) a1 == autoVersion (fun x => x) a2 then "ok True" else "ok False")
+    else none
   | _ => none
 
 end Strax.Driver
